@@ -148,10 +148,19 @@ def _exhaustive_chain_ends(fn, cfg):
         ok = True
         for i_ in chain_:
             t = i_.test
+            while isinstance(t, ast.UnaryOp) and isinstance(t.op, ast.Not) \
+                    and isinstance(t.operand, ast.UnaryOp) and \
+                    isinstance(t.operand.op, ast.Not):
+                t = t.operand.operand
             if isinstance(t, ast.Compare) and len(t.ops) == 1 and \
                     isinstance(t.ops[0], (ast.Eq, ast.Is, ast.In)) and \
                     isinstance(t.left, (ast.Name, ast.Attribute)):
                 subj.add(ast.dump(t.left))
+            elif isinstance(t, ast.Compare) and len(t.ops) == 1 and \
+                    isinstance(t.ops[0], (ast.Eq, ast.Is)) and \
+                    isinstance(t.left, ast.Constant) and \
+                    isinstance(t.comparators[0], (ast.Name, ast.Attribute)):
+                subj.add(ast.dump(t.comparators[0]))    # 0 == d
             else:
                 ok = False
         if not ok or len(subj) != 1:
